@@ -34,6 +34,7 @@ fn gens(tier: Tier) -> Vec<Gen> {
         Gen { name: "stalls", count: stall_count(tier), exhaustive: tier == Tier::Thorough, run: run_stall },
         Gen { name: "converse", count: tier.pick(24, 400), exhaustive: false, run: run_converse },
         Gen { name: "peer-failures-before-deadline", count: (5 * 3) as u64, exhaustive: true, run: run_peer_failures },
+        Gen { name: "completed-then-late-reads", count: (3 * 2 * 2) as u64, exhaustive: true, run: run_late_reads },
         Gen { name: "interleavings", count: (2 * 2 * 6) as u64, exhaustive: true, run: run_interleaving },
         Gen { name: "retrying-caller", count: (3 * 2 * 2) as u64, exhaustive: true, run: run_retrying_caller },
         Gen { name: "stale-watchdog", count: (3 * 2) as u64, exhaustive: true, run: run_stale_watchdog },
@@ -442,6 +443,84 @@ fn run_converse(ctx: &mut Ctx, rng: &mut Rng, index: u64) {
     ctx.nontrivial(format!("converse{index}{framing}{t_ms}{sizes:?}{extra}").as_bytes());
     let fname = ["length", "chunked", "close"][framing as usize];
     ctx.sample(|| json!({"framing": fname, "payload": payload.len(), "T_ms": t_ms, "further_reads": extra}));
+}
+
+/// a response that completed long before a SHORT deadline, kept by the caller and read again after
+/// the deadline has passed: still the end of the body, never a timeout ("a response that completed
+/// before the deadline is never reported as timed out, whatever the caller's read pattern
+/// (including further reads after end-of-body)"). Half of the cases run with a logger enabled at
+/// trace level whose records take 2 ms each.
+fn run_late_reads(ctx: &mut Ctx, _rng: &mut Rng, index: u64) {
+    let framing = (index % 3) as usize;
+    let via_split = (index / 3) % 2 == 1;
+    let logging = (index / 6) % 2 == 1;
+    let payload = b"a complete little body".to_vec();
+    let wire: Vec<u8> = match framing {
+        0 => [format!("HTTP/1.1 200 OK\r\nContent-Length: {}\r\n\r\n", payload.len()).as_bytes(), &payload[..]].concat(),
+        1 => [&b"HTTP/1.1 200 OK\r\nTransfer-Encoding: chunked\r\n\r\n16\r\n"[..], &payload[..], b"\r\n0\r\n\r\n"].concat(),
+        _ => [&b"HTTP/1.1 200 OK\r\n\r\n"[..], &payload[..]].concat(),
+    };
+    let server: Server<()> = Server::spawn(move |mut s: TcpStream| {
+        let _ = read_head(&mut s);
+        write_all_ignore(&mut s, &wire);
+    });
+    if logging {
+        crate::monitors::set_logging(true);
+        crate::monitors::set_log_delay_us(2_000);
+    }
+    let t0 = Instant::now();
+    let t = Duration::from_millis(500);
+    let mut problems: Vec<(String, String)> = Vec::new();
+    let fname = ["length", "chunked", "close"][framing];
+    let descr = |x: &str| format!("{x}; framing={fname} T=500 ms, read timeout 10 s, reader half of split(): {via_split}, logger enabled: {logging}");
+    match attohttpc::get(format!("http://127.0.0.1:{}/c13", server.port)).timeout(t).read_timeout(Duration::from_secs(10)).send() {
+        Err(e) => problems.push((format!("late-reads:send-failed:{fname}"), descr(&format!("{e:?} after {:?}", t0.elapsed())))),
+        Ok(resp) => {
+            let mut reader: Box<dyn Read> = if via_split { Box::new(resp.split().2) } else { Box::new(resp) };
+            let mut got = Vec::new();
+            let mut buf = [0u8; 64];
+            loop {
+                match reader.read(&mut buf) {
+                    Ok(0) => break,
+                    Ok(n) => got.extend_from_slice(&buf[..n]),
+                    Err(e) => {
+                        problems.push((format!("false-timeout-or-error-before-deadline:{fname}"), descr(&format!("read failed with {:?} ({e}) {:?} after the start", e.kind(), t0.elapsed()))));
+                        break;
+                    }
+                }
+            }
+            let finished = t0.elapsed();
+            if problems.is_empty() && got != payload {
+                problems.push(("late-reads:body-differs".into(), descr("body differs")));
+            }
+            if problems.is_empty() && finished < Duration::from_millis(350) {
+                // well past the deadline
+                std::thread::sleep((t + Duration::from_millis(300)).saturating_sub(t0.elapsed()));
+                for k in 0..3 {
+                    ctx.count("reads_after_end_of_body_and_after_the_deadline", 1);
+                    match reader.read(&mut buf) {
+                        Ok(0) => {}
+                        Ok(n) => problems.push(("late-reads:bytes-after-end".into(), descr(&format!("read #{k} after the end returned {n} bytes")))),
+                        Err(e) => {
+                            problems.push((format!("false-timeout-after-end-of-body:late:{fname}"), descr(&format!("the response was complete after {finished:?}; read #{k} issued {:?} after the start failed with {:?} ({e})", t0.elapsed(), e.kind()))));
+                            break;
+                        }
+                    }
+                    std::thread::sleep(Duration::from_millis(20));
+                }
+            } else if problems.is_empty() {
+                ctx.inconclusive(format!("the response took {finished:?} to arrive on loopback"));
+            }
+        }
+    }
+    crate::monitors::set_log_delay_us(0);
+    crate::monitors::set_logging(false);
+    drop(server);
+    ctx.count("completed_then_late_reads", 1);
+    for (sg, d) in problems.into_iter().take(2) {
+        ctx.violation(sg, d);
+    }
+    ctx.nontrivial(format!("late{index}").as_bytes());
 }
 
 /// failures that are not timeouts, with an overall timeout set and far away: the peer hangs up
